@@ -484,6 +484,9 @@ def case_arith(ctx, case):
                            f'VoxelNeuron {op} {f}: to_compact changed the prefix of the voxel size ({x.units!r} -> '
                            f'{y.units!r}) but offset/connectors stay in the old prefix', case,
                            signature=f'VoxelNeuron.{dunder}/to_compact-prefix-change/offset-not-rescaled')
+    else:
+        ctx.oracle(ans.get('phys') == '1', f'{CLS[kind]} {op} {f}: coordinates and connectors not shifted by the same '
+                                           f'vector, or radii / units touched (in={xin} out={out})', case)
     ctx.oracle(ans.get('back') == '1', f'{CLS[kind]} {op} {f}: undoing the operation does not restore the input', case)
     # the implementation's own inverse
     inv = {'mul': 'div', 'div': 'mul', 'add': 'sub', 'sub': 'add'}[op]
@@ -667,7 +670,8 @@ def nodes_sig(x):
 
 def phys_nodes(x):
     u = x.units_xyz
-    return np.sort((x.nodes[['x', 'y', 'z']].values * np.asarray(u.magnitude, dtype=float) * 10.0 ** unit_exp(u.units)).round(18), axis=0)
+    e = unit_exp(u.units)
+    return np.sort((x.nodes[['x', 'y', 'z']].values * np.asarray(u.magnitude, dtype=float) * (1.0 if e == 'D' else 10.0 ** e)).round(18), axis=0)
 
 
 def run_strfun(fn, x, arg):
@@ -942,6 +946,20 @@ def nontrivial(kind, case):
     return True
 
 
+def run_case(ctx, kind, c):
+    """an exception escaping a runner means navis returned something the harness cannot even canonicalise: the
+    tie is broken (reported as a correspondence failure, which triggers the failing-input search)"""
+    from .common import Timeout
+    try:
+        RUNNERS[kind](ctx, c)
+    except Timeout:
+        raise
+    except Exception as e:
+        import traceback
+        ctx.fail('corr', f'{kind}: harness could not evaluate the case: {type(e).__name__}: {e} '
+                         f'[{traceback.format_exc().strip().splitlines()[-3].strip()}]', c)
+
+
 def run(ctx):
     ctx.extra['rule'] = (
         'setunits: every spelling of 12 unit groups + malformed + random per-axis forms on a random neuron type; '
@@ -962,7 +980,7 @@ def run(ctx):
     for kind, case in gen_cases(ctx):
         c = dict(case, kind=kind)
         ctx.case(c, nontrivial=nontrivial(kind, case), sample_every=97)
-        RUNNERS[kind](ctx, c)
+        run_case(ctx, kind, c)
     errs = ctx.hist.get('sweep_errors', {})
     if errs:
         ctx.notes.append(f'sweep operations that raised (not evaluated): {sorted(errs)}')
@@ -971,4 +989,4 @@ def run(ctx):
 def replay(ctx, rp):
     case = rp['case']
     ctx.case(case)
-    RUNNERS[case['kind']](ctx, case)
+    run_case(ctx, case['kind'], case)
